@@ -28,8 +28,8 @@ const LITS: &[&str] = &[
 const BIG: &[usize] = &[9, 14, 15];
 const NON_NUMBER: &[usize] = &[4, 5, 7, 8, 12, 13];
 
-const OPS_ALL: &[&str] = &["+", "-", "*", "/", "//", "%", "**", "~", "and", "or", "in", "not in", "==", "!=", "<", "<=", ">", ">="];
-const OPS_CORE: &[&str] = &["+", "-", "*", "//", "%", "~", "and", "or", "in", "==", "<"];
+const OPS_ALL: &[&str] = &["+", "-", "*", "/", "//", "%", "**", "~", "and", "or", "in", "not in", "==", "!=", "<", "<=", ">", ">=", "[]"];
+const OPS_CORE: &[&str] = &["+", "-", "*", "//", "%", "~", "and", "or", "in", "==", "<", "[]"];
 
 impl E {
     /// source text; `hoist` says for the k-th literal occurrence (left to right) whether it is
@@ -51,6 +51,26 @@ impl E {
                 // the right operand is a dummy literal (keeps the occurrence numbering simple)
                 let r = b.src(hoist, counter);
                 format!("(({})|length + {})", l, r)
+            }
+            E::Bin("[]", a, b) => {
+                let l = a.src(hoist, counter);
+                let r = b.src(hoist, counter);
+                format!("({}[{}])", l, r)
+            }
+            E::Bin("|default", a, b) => {
+                let l = a.src(hoist, counter);
+                let r = b.src(hoist, counter);
+                format!("(({})|default({}))", l, r)
+            }
+            E::Bin(" is defined", a, b) => {
+                let l = a.src(hoist, counter);
+                let r = b.src(hoist, counter);
+                format!("[{} is defined, {}]", l, r)
+            }
+            E::Bin(" if ", a, b) => {
+                let l = a.src(hoist, counter);
+                let r = b.src(hoist, counter);
+                format!("({} if {} else 9)", r, l)
             }
             E::Bin(op, a, b) => {
                 let l = a.src(hoist, counter);
@@ -195,6 +215,51 @@ fn displays_of_operations(pool: &[usize], core: &[usize]) -> Vec<E> {
     v
 }
 
+/// subscripts of displays and of literals, with keys that are present and keys that are missing,
+/// used as an operand of a further operation: what a missing item is (an undefined value) and what
+/// the next operation makes of it must not depend on who evaluates it
+fn subscripts_of_displays() -> Vec<E> {
+    let lit = |i: usize| Box::new(E::Lit(i));
+    let items = [0usize, 1, 5, 7, 6]; // 0, 1, 'a', none, true
+    let keys = [0usize, 1, 2, 5, 7, 6];
+    let others = [1usize, 5, 7, 12]; // 1, 'a', none, []
+    let mut subjects: Vec<E> = vec![];
+    for &a in &items {
+        for &b in &items {
+            subjects.push(E::List(vec![E::Lit(a), E::Lit(b)]));
+            subjects.push(E::Tuple(vec![E::Lit(a), E::Lit(b)]));
+            subjects.push(E::Map(lit(a), lit(b)));
+        }
+        subjects.push(E::List(vec![E::Lit(a)]));
+    }
+    for i in [4usize, 5, 8, 12, 13, 0, 7] {
+        subjects.push(E::Lit(i)); // '', 'a', [1], [], {}, 0, none
+    }
+    let mut v = vec![];
+    for subj in &subjects {
+        for &k in &keys {
+            let x = || Box::new(E::Bin("[]", Box::new(subj.clone()), lit(k)));
+            v.push(*x());
+            v.push(E::Un("not ", x()));
+            v.push(E::Un("-", x()));
+            v.push(E::List(vec![*x()]));
+            for &d in &others {
+                for op in ["==", "!=", "<", ">=", "in", "and", "or", "~", "+", "|default", " is defined", " if ", "[]"] {
+                    v.push(E::Bin(op, x(), lit(d)));
+                }
+                for op in ["==", "<", "in", "and", "or", "~"] {
+                    v.push(E::Bin(op, lit(d), x()));
+                }
+                v.push(E::Chain(lit(d), "<", x(), "<", lit(d)));
+                v.push(E::Chain(lit(d), "==", x(), "!=", lit(d)));
+                v.push(E::Chain(x(), "<=", lit(d), "<", lit(d)));
+                v.push(E::Map(lit(d), x()));
+            }
+        }
+    }
+    v
+}
+
 fn depth2(pool: &[usize], ops: &[&'static str]) -> Vec<E> {
     let mut v = vec![];
     let lit = |i: usize| Box::new(E::Lit(i));
@@ -219,6 +284,10 @@ fn depth2(pool: &[usize], ops: &[&'static str]) -> Vec<E> {
     }
     v
 }
+
+const MODES: [minijinja::UndefinedBehavior; 4] = [minijinja::UndefinedBehavior::Lenient, minijinja::UndefinedBehavior::Chainable, minijinja::UndefinedBehavior::SemiStrict, minijinja::UndefinedBehavior::Strict];
+const MODE_NAMES: [&str; 4] = ["lenient", "chainable", "semi_strict", "strict"];
+thread_local! { static MODE_NOW: std::cell::Cell<usize> = const { std::cell::Cell::new(0) }; }
 
 #[derive(Clone, Debug, PartialEq)]
 enum Out {
@@ -275,11 +344,12 @@ fn check_expr(env: &Environment, lit_values: &[Value], e: &E, acc: &Acc, l: &mut
             E::Lit(_) => "literal".into(),
         }
     };
+    let mode = MODE_NOW.with(|m| m.get());
     let mk = |clause: &str, detail: String, hoist: u32| Failure {
-        key: format!("{} outer={} ", clause, ops_class(e)).trim().to_string(),
-        case: format!("{} hoist={:b}", folded_src, hoist),
+        key: format!("{} outer={}{}", clause, ops_class(e), if mode == 0 { String::new() } else { format!(" undefined={}", MODE_NAMES[mode]) }).trim().to_string(),
+        case: format!("{} hoist={:b}{}", folded_src, hoist, if mode == 0 { String::new() } else { format!(" {}", MODE_NAMES[mode]) }),
         detail,
-        replay: json!({"expr": folded_src, "hoist": hoist, "lits": lits}),
+        replay: json!({"expr": folded_src, "hoist": hoist, "lits": lits, "mode": mode}),
     };
     if folded == Out::CompileErr {
         // clause 2: a constant expression may not fail at load time
@@ -359,6 +429,8 @@ pub fn main(args: Args) -> i32 {
         }
         let src = j["expr"].as_str().unwrap();
         let hoist = j["hoist"].as_u64().unwrap() as u32;
+        let mut env0 = Environment::new();
+        env0.set_undefined_behavior(MODES[j["mode"].as_u64().unwrap_or(0) as usize]);
         let lits: Vec<usize> = j["lits"].as_array().unwrap().iter().map(|x| x.as_u64().unwrap() as usize).collect();
         // rebuild the hoisted source textually: replace the k-th literal occurrence left to right
         let folded = eval(&env0, src, &[]);
@@ -397,6 +469,7 @@ pub fn main(args: Args) -> i32 {
     let mut exprs = depth1(&full_pool, OPS_ALL);
     exprs.extend(map_displays());
     exprs.extend(displays_of_operations(&full_pool, &core_pool));
+    exprs.extend(subscripts_of_displays());
     let d1 = exprs.len();
     exprs.extend(depth2(&core_pool, args.tier.pick(OPS_CORE, OPS_ALL)));
     let before = exprs.len();
@@ -404,10 +477,14 @@ pub fn main(args: Args) -> i32 {
     acc.count("expressions_depth1", d1 as u64);
     acc.count("expressions_total", exprs.len() as u64);
     acc.count("expressions_excluded_lazy_repeat", (before - exprs.len()) as u64);
-    par_chunks(exprs.len() as u64, 512, &acc, |r, l| {
-        let env = Environment::new();
+    // the whole space under every undefined behaviour: what an undefined operand does depends on the
+    // mode, and the compile-time evaluator has to agree with the run-time in each of them
+    let n_exprs = exprs.len() as u64;
+    par_chunks(n_exprs * 4, 512, &acc, |r, l| {
+        let envs: Vec<Environment> = MODES.iter().map(|m| { let mut e = Environment::new(); e.set_undefined_behavior(*m); e }).collect();
         for i in r {
-            check_expr(&env, &lit_values, &exprs[i as usize], &acc, l);
+            MODE_NOW.with(|m| m.set((i / n_exprs) as usize));
+            check_expr(&envs[(i / n_exprs) as usize], &lit_values, &exprs[(i % n_exprs) as usize], &acc, l);
         }
     });
     // sites: the places of the language that take expressions or arguments - positional, keyword and
@@ -511,7 +588,7 @@ pub fn main(args: Args) -> i32 {
             level: "exploration",
             tier: args.tier,
             seed: args.seed,
-            rule: format!("all depth-1 expressions over a 16-literal pool x 18 binary operators + unary -/not + list/tuple/map displays (two-entry maps over all pairs of 10 hashable literals, equal keys included) + list/tuple/map displays and keyword arguments whose items are unary or binary operations over literals + literal keyword arguments, 76 sites of the language that take expressions or arguments (positional, keyword, mixed and splatted calls of macros, call blocks with and without arguments of their own, filters, tests, functions, filter blocks, statement heads, subscripts, macro defaults) with one or two of 10 literals in the argument slots, and all depth-2 expressions ((a o b) o c, a o (b o c), 7 comparison chains, nested displays) over the first {} literals x {} operators; for each expression every non-empty subset of its literal occurrences is hoisted into context variables bound to the value the lexer produces for that literal, and Ok/Err status plus kind:text of the result must equal the all-literal (constant-folded) form; failing constant expressions must load and stay silent in dead code. distinct non-trivial = distinct expressions that evaluate successfully", core_pool.len(), args.tier.pick(OPS_CORE, OPS_ALL).len()),
+            rule: format!("under each of the 4 undefined behaviours: all depth-1 expressions over a 16-literal pool x 18 binary operators + subscripts (a[b] is an operator of the depth-1 and depth-2 spaces; 82 display / literal subjects x 6 present and missing keys, bare and as an operand of 13 + 6 binary forms, 3 chains, unary operators and displays) + unary -/not + list/tuple/map displays (two-entry maps over all pairs of 10 hashable literals, equal keys included) + list/tuple/map displays and keyword arguments whose items are unary or binary operations over literals + literal keyword arguments, 76 sites of the language that take expressions or arguments (positional, keyword, mixed and splatted calls of macros, call blocks with and without arguments of their own, filters, tests, functions, filter blocks, statement heads, subscripts, macro defaults) with one or two of 10 literals in the argument slots, and all depth-2 expressions ((a o b) o c, a o (b o c), 7 comparison chains, nested displays) over the first {} literals x {} operators; for each expression every non-empty subset of its literal occurrences is hoisted into context variables bound to the value the lexer produces for that literal, and Ok/Err status plus kind:text of the result must equal the all-literal (constant-folded) form; failing constant expressions must load and stay silent in dead code. distinct non-trivial = distinct expressions that evaluate successfully", core_pool.len(), args.tier.pick(OPS_CORE, OPS_ALL).len()),
             exhaustive: true,
             bound: json!({"literals": LITS, "ops": OPS_ALL, "depth2_pool": core_pool.len()}),
             assumptions: vec!["sequence repetition by counts >= 2^31 is excluded (lazy, unprintable); its crash behaviour belongs to C01".into()],
